@@ -175,7 +175,7 @@ def _case(draw):
             # helpers whose SOURCE is not what they do: a decorated function (functools.wraps wrapper changes the result), a bound
             # method (its self is an object): inlining the text that inspect finds would compute something else
             style = draw(st.sampled_from(["def-wrapped", "bound-method"]))
-        helpers.append({"name": f"h{i}", "style": style, "params": params, "body": body, "ret": want, "closure": closure, "slash": slash})
+        helpers.append({"name": f"h{i}", "style": style, "params": params, "body": body, "ret": want, "closure": closure, "slash": slash, "rebound_default": draw(st.integers(0, 2)) == 0})
     p = draw(st.sampled_from(["e", "e", "j", "a", "x"]))
     inner = draw(st.sampled_from(["j", "a", "x", "b", "v"]))
     items = []
@@ -262,6 +262,12 @@ def module_text(case):
     lines = ["def _keep(f):\n    return f"]
     for h in case["helpers"]:
         plist = [n if d is None else f"{n}={d}" for n, _, d in h["params"]]
+        start = len(lines)
+        rebound = bool(h.get("rebound_default")) and h["params"] and h["params"][-1][2] is not None and h["style"] in ("def", "defdoc", "lambda-arg") and not h.get("closure")
+        if rebound:
+            # the default is written as a module variable that is re-bound after the helper is made: the helper keeps the value it
+            # was made with
+            plist[-1] = f"{h['params'][-1][0]}=DV_{h['name']}"
         if h.get("slash"):
             plist.insert(h["slash"], "/")
         ps = ", ".join(plist)
@@ -301,6 +307,9 @@ def module_text(case):
             lines.append(f"def {h['name']}({ps}):\n    \"a helper\"\n    return {h['body']}")
         else:
             lines.append(f"def {h['name']}({ps}):\n    return {h['body']}")
+        if rebound:
+            lines.insert(start, f"DV_{h['name']} = {h['params'][-1][2]}")
+            lines.append(f"DV_{h['name']} = {h['params'][-1][2]} + 100")
     lines.append(f"def build(ds):\n    return ds.Select(lambda {case['param']}: {case['body']})")
     return "\n".join(lines) + "\n"
 
